@@ -88,6 +88,19 @@ def extra_cases(ctx: Ctx) -> list:
         cases.append(mk(K.circuit_spec(3, f3[1:]), ankaa_grid, lvl))
         cases.append(mk(K.circuit_spec(3, f3), h1, lvl))
         cases.append(mk(K.circuit_spec(2, [['CNOT', [0, 1]]]), h1, lvl))
+    # Gate sets without a general single-qudit gate: the analytic Z-X-Z-X-Z
+    # rule picks SX or RX and RZ or U1 independently, by what the model
+    # offers -- every pairing, on a circuit (the rule is on the circuit path)
+    for xg in ('SX', 'RX'):
+        for zg in ('RZ', 'U1'):
+            gs = ['CNOT', zg, xg]
+            nm = '+'.join(gs).lower()
+            for lvl in levels:
+                cases.append(mk(K.circuit_spec(3, f3),
+                                M(3, K.LINE3, gs, name='line3-' + nm), lvl))
+                cases.append(mk(K.circuit_spec(2, [['U3', [0], u3],
+                                                   ['CNOT', [0, 1]]]),
+                                M(2, None, gs, name='all2-' + nm), lvl))
     cases.append(mk({'kind': 'unitary', 'gen': ['perm', [0, 1, 3, 2]]},
                     M(2, None, K.GS_RIGETTI, name='ankaa-all2',
                       vendor='rigetti-ankaa'), 1))
